@@ -83,6 +83,13 @@ def gen(rng, tier):
         shared = {"rmw": [max(2, shape[0] + rng.choice([-1, 1, 2]))] + [max(1, n) for n in tshape[1:]]}
         tkind = "sim"
         lock = rng.choice([True, True, "L0"])
+    # ambient scheduler: store() is called WITHOUT a scheduler argument under dask.config.set(scheduler=...);
+    # the named schedulers are simulated ones, the process pool runs every graph on a PICKLED COPY (writes
+    # of a remote worker land in its own copy of an in-memory target), a "client" is a callable that does too
+    ambient = None
+    if mode == "store" and not shared and rng.random() < 0.15:
+        ambient = rng.choice(["threads", "sync", "processes", "multiprocessing", "client", "Threads"])
+        tkind = "nd"
     scheds = [{"policy": "fifo", "sseed": 0, "release": False}]
     for _ in range(2 if tier == "quick" else 5):
         scheds.append({"policy": rng.choice(POLICIES), "sseed": rng.getrandbits(32), "release": rng.random() < 0.5})
@@ -94,6 +101,11 @@ def gen(rng, tier):
         for _ in range((1 if tier == "quick" else 3) + (2 if shared else 0)):
             scheds.append({"policy": "preempt", "inflight": rng.choice([2, 3]), "yield_p": rng.choice([0.1, 0.3, 0.6]),
                            "sseed": rng.getrandbits(32), "release": False})
+    if ambient:
+        scheds = scheds[:3]
+        return {"recipe": recipe, "pairs": pairs, "lock": lock if lock is not True else False, "mode": mode, "shared": None,
+                "ambient": ambient, "axis": 0, "tkind": "nd", "compute": True, "return_stored": False,
+                "schedules": [s_ for s_ in scheds if s_["policy"] != "preempt"], "fault_positions": 0, "fseed": 0}
     return {"recipe": recipe, "pairs": pairs, "lock": lock, "mode": mode, "shared": shared, "axis": rng.randrange(8), "tkind": tkind,
             "compute": rng.random() < 0.7, "return_stored": rng.random() < 0.3, "schedules": scheds,
             "fault_positions": "all" if tier == "thorough" else 3, "fseed": rng.getrandbits(32)}
@@ -162,6 +174,44 @@ def execute(case, stats, log):
         _st.get_scheduler_lock = real_gsl
 
 
+class _CopyingScheduler:
+    """A scheduler whose workers live in other processes: every graph is run on a pickled copy."""
+
+    def __init__(self, sim, stats):
+        self.sim, self.stats = sim, stats
+
+    def __call__(self, dsk, keys, **kw):
+        import cloudpickle
+
+        if hasattr(dsk, "__dask_graph__"):
+            dsk = dsk.__dask_graph__()
+        self.stats["probe.ran_on_pickled_copy"] = self.stats.get("probe.ran_on_pickled_copy", 0) + 1
+        return self.sim.run(cloudpickle.loads(cloudpickle.dumps(dict(dsk))), keys)
+
+
+def _store_under_ambient(ambient, sim, srcs, tgts, lock, kw, stats):
+    import dask
+    import dask.base
+    import dask_array as da
+
+    saved = dict(dask.base.named_schedulers)
+    remote = _CopyingScheduler(sim, stats)
+    try:
+        for k in ("threads", "threading", "sync", "synchronous", "single-threaded"):
+            dask.base.named_schedulers[k] = sim.get
+        for k in ("processes", "multiprocessing"):
+            dask.base.named_schedulers[k] = remote
+        value = remote if ambient == "client" else ambient
+        stats[f"fault.ambient.{ambient}"] = stats.get(f"fault.ambient.{ambient}", 0) + 1
+        with dask.config.set(scheduler=value), warnings.catch_warnings():
+            warnings.simplefilter("ignore")
+            da.store(srcs, tgts, lock=lock, compute=True, **kw)
+    finally:
+        dask.base.named_schedulers.clear()
+        dask.base.named_schedulers.update(saved)
+    return None
+
+
 def _execute_store(case, stats, log, env, xs, vals, lock, obs_lock, shared):
     import dask
     import dask_array as da
@@ -212,6 +262,8 @@ def _execute_store(case, stats, log, env, xs, vals, lock, obs_lock, shared):
         if any(r is not None for r in regions):
             kw["regions"] = regions if len(regions) > 1 else regions[0]
         srcs, tgts = (xs, ts) if len(xs) > 1 else (xs[0], ts[0])
+        if case.get("ambient"):
+            return _store_under_ambient(case["ambient"], sim, srcs, tgts, lock, kw, stats)
         with warnings.catch_warnings():
             warnings.simplefilter("ignore")
             res = da.store(srcs, tgts, lock=lock, compute=case["compute"], return_stored=case["return_stored"],
